@@ -73,6 +73,8 @@ pub async fn run_case(case: &Case, rec: &Rec) -> Value {
     let mut res = vec![];
     for step in &case.steps {
         if let Some(sql) = step.get("sql").and_then(|s| s.as_str()) {
+            // `${DIR}` = a scratch directory of this case (COPY TO / FROM)
+            let sql = &sql.replace("${DIR}", &scratch.path().to_string_lossy());
             match &db {
                 Some(d) => {
                     let mut r = db::run_stmt(d, sql).await;
@@ -136,6 +138,52 @@ pub async fn run_case(case: &Case, rec: &Rec) -> Value {
                     }
                 } else {
                     res.push(json!({"ok": true}));
+                }
+            }
+            "readfile" => {
+                let name = step.get("name").and_then(|s| s.as_str()).unwrap_or("");
+                match std::fs::read(scratch.path().join(name)) {
+                    Ok(b) => res.push(json!({"ok": true, "bytes": b})),
+                    Err(e) => res.push(json!({"ok": false, "err": e.to_string()})),
+                }
+            }
+            "writefile" => {
+                let name = step.get("name").and_then(|s| s.as_str()).unwrap_or("");
+                let bytes: Vec<u8> = step
+                    .get("bytes")
+                    .and_then(|b| b.as_array())
+                    .map(|a| a.iter().map(|x| x.as_u64().unwrap_or(0) as u8).collect())
+                    .unwrap_or_default();
+                match std::fs::write(scratch.path().join(name), bytes) {
+                    Ok(()) => res.push(json!({"ok": true})),
+                    Err(e) => res.push(json!({"ok": false, "err": e.to_string()})),
+                }
+            }
+            "corrupt" => {
+                // alter one stored file: {"path": rel, "pos": i (negative: from the end),
+                //   "xor": mask} | {"path", "truncate": new_len (negative: cut that many bytes)}
+                let rel = step.get("path").and_then(|s| s.as_str()).unwrap_or("");
+                let path = dbdir.join(rel);
+                match std::fs::read(&path) {
+                    Ok(mut bytes) => {
+                        let len = bytes.len() as i64;
+                        if let Some(t) = step.get("truncate").and_then(|x| x.as_i64()) {
+                            let n = if t < 0 { (len + t).max(0) } else { t.min(len) };
+                            bytes.truncate(n as usize);
+                        } else {
+                            let pos = step.get("pos").and_then(|x| x.as_i64()).unwrap_or(0);
+                            let i = if pos < 0 { len + pos } else { pos };
+                            let mask = step.get("xor").and_then(|x| x.as_u64()).unwrap_or(1) as u8;
+                            if i >= 0 && i < len {
+                                bytes[i as usize] ^= mask;
+                            }
+                        }
+                        match std::fs::write(&path, &bytes) {
+                            Ok(()) => res.push(json!({"ok": true, "len": len})),
+                            Err(e) => res.push(json!({"ok": false, "err": e.to_string()})),
+                        }
+                    }
+                    Err(e) => res.push(json!({"ok": false, "err": e.to_string()})),
                 }
             }
             "state" => match &db {
